@@ -141,9 +141,9 @@ class WorkCtx:
         self.n_upload_refs = 0
         self.containers: List[Any] = []      # dict/list nodes of the call being generated (may be referenced again)
 
-    def upload_node(self):
+    def upload_node(self, force_new=False):
         ch = self.ch
-        if self.uploads and ch.chance("w.up.reuse", 2, 5):
+        if self.uploads and not force_new and ch.chance("w.up.reuse", 2, 5):
             uid = ch.draw("w.up.which", len(self.uploads))
         else:
             uid = len(self.uploads)
@@ -318,6 +318,9 @@ def gen_call(ctx: WorkCtx, allow_uploads=True):
             for i in range(1 + ch.draw("w.nvars", 4)):
                 key = names[(i + ch.draw("w.vkey", 3)) % len(names)]
                 v[key] = ("unset",) if ch.chance("w.unset", 1, 8) else gen_value(ctx, 3)
+            if allow_uploads and ch.chance("w.bulk_uploads", 1, 12):
+                # size knob: a request with many distinct files (two-digit part names)
+                v["bulk"] = ("list", [ctx.upload_node(force_new=not ch.chance("w.bulk.reuse", 1, 6)) for _ in range(9 + ch.draw("w.bulk.n", 12))])
             spec["vars"] = v
     elif via == "get_item":
         spec["args"] = {"id": ("str", ch.pick("w.id", ["1", "abc", "ü"]))}
@@ -342,7 +345,7 @@ def gen_call(ctx: WorkCtx, allow_uploads=True):
             a["files"] = ("none",)
         else:
             a["files"] = ("list", [ctx.upload_node() if ch.chance("w.du.f", 2, 3) else ("none",)
-                                   for _ in range(ch.draw("w.du.n", 4))])
+                                   for _ in range(ch.draw("w.du.n", 4) if not ch.chance("w.du.bulk", 1, 8) else 10 + ch.draw("w.du.nbulk", 8))])
         spec["args"] = a
     spec["containers"] = list(ctx.containers)
     spec["multipart"] = ctx.n_upload_refs > before or _refs_upload_container(spec)
